@@ -19,548 +19,6 @@ use anyhow::Result;
 type DatagramPacket = (BytesMut, Address);
 broadcast use axiom_v4_len, axiom_v6_len, axiom_string_utf8;
 
-/// abstract value of an Address (RFC 1928 fields); IPv6 flow label / scope id are not part of any wire format
-spec fn absaddr(a: Address) -> AddrV {
-    match a {
-        Address::Domain(h, p) => AddrV::Dom(sbytes(h), p),
-        Address::Socket(SocketAddr::V4(s)) => AddrV::V4(v4_octets(sa4_ip(s)), sa4_port(s)),
-        Address::Socket(SocketAddr::V6(s)) => AddrV::V6(v6_octets(sa6_ip(s)), sa6_port(s)),
-    }
-}
-/// what a decoder builds: IPv6 with flow label and scope id 0
-spec fn canonical(a: Address) -> bool {
-    a matches Address::Socket(SocketAddr::V6(s)) ==> sa6_flow(s) == 0 && sa6_scope(s) == 0
-}
-/// representable in one length byte (C14: longer names must be refused before anything is sent)
-spec fn repr(a: Address) -> bool { a matches Address::Domain(h, _) ==> sbytes(h).len() <= 255 }
-//#C14
-/// C14: two canonical addresses with the same abstract value are the same address
-proof fn lemma_abs_injective(a: Address, b: Address)
-    requires absaddr(a) == absaddr(b), canonical(a), canonical(b)
-    ensures a == b
-{
-    match (a, b) {
-        (Address::Domain(h1, p1), Address::Domain(h2, p2)) => { axiom_string_ext(h1, h2); }
-        (Address::Socket(SocketAddr::V4(s1)), Address::Socket(SocketAddr::V4(s2))) => { axiom_v4_ext(sa4_ip(s1), sa4_ip(s2)); axiom_sa4_ext(s1, s2); }
-        (Address::Socket(SocketAddr::V6(s1)), Address::Socket(SocketAddr::V6(s2))) => { axiom_v6_ext(sa6_ip(s1), sa6_ip(s2)); axiom_sa6_ext(s1, s2); }
-        _ => {}
-    }
-}
-impl vstd::std_specs::convert::TryFromSpecImpl<u8> for Socks5CommandStatus {
-    open spec fn obeys_try_from_spec() -> bool { false }
-    open spec fn try_from_spec(v: u8) -> core::result::Result<Self, Self::Error> { arbitrary() }
-}
-impl vstd::std_specs::convert::TryFromSpecImpl<u8> for Socks5AddressType {
-    open spec fn obeys_try_from_spec() -> bool { false }
-    open spec fn try_from_spec(v: u8) -> core::result::Result<Self, Self::Error> { arbitrary() }
-}
-spec fn atyp_code(t: Socks5AddressType) -> u8 { match t { Socks5AddressType::Ipv4 => 1, Socks5AddressType::Domain => 3, Socks5AddressType::Ipv6 => 4 } }
-
-
-
-//@@ octo-squirrel/src/protocol/address.rs:9-13  enum Address  sha=d701f69e752e0952
-#[derive(PartialEq, Eq, Clone)]
-enum Address {
-    Domain(String, u16),
-    Socket(SocketAddr),
-}
-
-//@@ octo-squirrel/src/protocol/socks5.rs:9-9  const VERSION  sha=31c82d410f6df766
-const VERSION: u8 = 5;
-
-//@@ octo-squirrel/src/protocol/socks5.rs:11-15  enum Socks5CommandStatus  sha=a67902fd29d73d0f
-#[derive(PartialEq, Eq, Clone, Copy)]
-enum Socks5CommandStatus {
-    Success,
-    Failure,
-}
-
-//@@ octo-squirrel/src/protocol/socks5.rs:17-29  impl TryFrom for Socks5CommandStatus  sha=fd0d55fe4da0bd20
-impl TryFrom<u8> for Socks5CommandStatus {
-    type Error = anyhow::Error;
-
-    fn try_from(value: u8) -> (r: Result<Self, Self::Error>)
-        ensures match r { Ok(t) => (value == 0 && t is Success) || (value == 1 && t is Failure), Err(_) => value > 1 },
-    {
-        if Self::Success as u8 == value {
-            Ok(Self::Success)
-        } else if Self::Failure as u8 == value {
-            Ok(Self::Failure)
-        } else {
-            return Err(verif_err());
-        }
-    }
-}
-
-//@@ octo-squirrel/src/protocol/socks5.rs:31-36  enum Socks5AddressType  sha=6571f459743d9f1b
-#[derive(PartialEq, Eq, Clone, Copy)]
-enum Socks5AddressType {
-    Ipv4 = 1,
-    Domain = 3,
-    Ipv6 = 4,
-}
-
-//@@ octo-squirrel/src/protocol/socks5.rs:38-52  impl TryFrom for Socks5AddressType  sha=a2da60cfb209176f
-impl TryFrom<u8> for Socks5AddressType {
-    type Error = anyhow::Error;
-
-    fn try_from(value: u8) -> (r: Result<Self, Self::Error>)
-        ensures
-            //#C14 C07
-            match r { Ok(t) => (value == 1 && t is Ipv4) || (value == 3 && t is Domain) || (value == 4 && t is Ipv6), Err(_) => value != 1 && value != 3 && value != 4 },
-    {
-        if Self::Ipv4 as u8 == value {
-            Ok(Self::Ipv4)
-        } else if Self::Domain as u8 == value {
-            Ok(Self::Domain)
-        } else if Self::Ipv6 as u8 == value {
-            Ok(Self::Ipv6)
-        } else {
-            return Err(verif_err());
-        }
-    }
-}
-
-//@@ octo-squirrel/src/protocol/socks5.rs:54-59  enum Socks5CommandType  sha=dc476d448b8347ac
-#[derive(PartialEq, Copy, Clone)]
-enum Socks5CommandType {
-    Connect = 1,
-    Bind = 2,
-    UdpAssociate = 3,
-}
-
-//@@ octo-squirrel/src/protocol/socks5.rs:61-73  impl Socks5CommandType  sha=c537aa93435591bf
-impl Socks5CommandType {
-    fn new(byte: u8) -> (r: Result<Self>)
-        ensures match r { Ok(t) => (byte == 1 && t is Connect) || (byte == 2 && t is Bind) || (byte == 3 && t is UdpAssociate), Err(_) => byte < 1 || byte > 3 },
-    {
-        if Self::Connect as u8 == byte {
-            Ok(Self::Connect)
-        } else if Self::Bind as u8 == byte {
-            Ok(Self::Bind)
-        } else if Self::UdpAssociate as u8 == byte {
-            Ok(Self::UdpAssociate)
-        } else {
-            return Err(verif_err());
-        }
-    }
-}
-
-//@@ octo-squirrel/src/protocol/socks5.rs:75-81  enum Socks5AuthMethod  sha=6d6099cb2a681b28
-#[derive(PartialEq, Eq, Clone, Copy)]
-enum Socks5AuthMethod {
-    NoAuth,
-    Gssapi,
-    Password,
-    Unaccepted = 255,
-}
-
-//@@ octo-squirrel/src/protocol/socks5.rs:83-97  impl Socks5AuthMethod  sha=d8a72e4c7070a4ae
-impl Socks5AuthMethod {
-    fn new(byte: u8) -> Result<Self> {
-        if Self::NoAuth as u8 == byte {
-            Ok(Self::NoAuth)
-        } else if Self::Gssapi as u8 == byte {
-            Ok(Self::Gssapi)
-        } else if Self::Password as u8 == byte {
-            Ok(Self::Password)
-        } else if Self::Unaccepted as u8 == byte {
-            Ok(Self::Unaccepted)
-        } else {
-            return Err(verif_err())
-        }
-    }
-}
-
-//@@ octo-squirrel/src/protocol/socks5/address.rs:16-35  fn encode  sha=2d4531094da3eeb9
-fn address__encode(addr: &Address, dst: &mut BytesMut)
-    requires
-        //#C14
-        repr(*addr),
-    ensures
-        //#C14 C03 C02
-        final(dst)@ == old(dst)@ + enc5(absaddr(*addr)),
-{
-    match addr {
-        Address::Domain(host, port) => {
-            dst.put_u8(Socks5AddressType::Domain as u8);
-            dst.put_u8(host.len() as u8);
-            dst.extend_from_slice(host.as_bytes());
-            dst.put_u16(*port);
-            proof { assert(dst@ =~= old(dst)@ + enc5(absaddr(*addr))); }
-        }
-        Address::Socket(SocketAddr::V4(v4)) => {
-            dst.put_u8(Socks5AddressType::Ipv4 as u8);
-            dst.extend_from_slice(&v4.ip().octets());
-            dst.put_u16(v4.port());
-            proof { assert(dst@ =~= old(dst)@ + enc5(absaddr(*addr))); }
-        }
-        Address::Socket(SocketAddr::V6(v6)) => {
-            dst.put_u8(Socks5AddressType::Ipv6 as u8);
-            dst.extend_from_slice(&v6.ip().octets());
-            dst.put_u16(v6.port())
-            ; proof { assert(dst@ =~= old(dst)@ + enc5(absaddr(*addr))); }
-        }
-    }
-}
-
-//@@ octo-squirrel/src/protocol/socks5/address.rs:37-71  fn decode  sha=288a7ff43f0bf184
-fn address__decode(src: &mut BytesMut) -> (r: Result<Address>)
-    ensures
-        //#C14 C07 C13 C03
-        match parse5(old(src)@) {
-            Some((v, n)) => r matches Ok(a) && absaddr(a) == v && canonical(a) && final(src)@ == old(src)@.skip(n as int),
-            None => r is Err,
-        },
-{
-    let ghost s0 = src@;
-    if !src.has_remaining() {
-        return Err(verif_err());
-    }
-    let addr_type = Socks5AddressType::try_from(src.get_u8())?;
-    match addr_type {
-        Socks5AddressType::Ipv4 => {
-            if src.remaining() < 4 + 2 {
-                return Err(verif_err());
-            }
-            proof { assert(s0.skip(1).take(4) =~= s0.subrange(1, 5)); assert(s0.skip(1).skip(4).take(2) =~= s0.subrange(5, 7)); assert(s0.skip(1).skip(4).skip(2) =~= s0.skip(7)); lemma_be_val_bound(s0.subrange(5, 7)); lemma_pow256_vals(); lemma_be_val_bound(s0.subrange(1, 5)); lemma_be_roundtrip2(s0.subrange(1, 5)); }
-            let ip_v4 = Ipv4Addr::from(src.get_u32());
-            Ok(Address::Socket(SocketAddr::V4(SocketAddrV4::new(ip_v4, src.get_u16()))))
-        }
-        Socks5AddressType::Domain => {
-            if !src.has_remaining() {
-                return Err(verif_err());
-            }
-            let len = src.get_u8();
-            if src.remaining() < len as usize + 2 {
-                return Err(verif_err());
-            }
-            proof { let l = len as int; assert(s0.skip(1).skip(1).take(l) =~= s0.subrange(2, 2 + l)); assert(s0.skip(1).skip(1).skip(l).take(2) =~= s0.subrange(2 + l, 4 + l)); assert(s0.skip(1).skip(1).skip(l).skip(2) =~= s0.skip(4 + l)); lemma_be_val_bound(s0.subrange(2 + l, 4 + l)); lemma_pow256_vals(); }
-            let host_bytes = src.split_to(len as usize);
-            let port = src.get_u16();
-            let host = String::from_utf8(host_bytes.to_vec())?;
-            Ok(Address::Domain(host, port))
-        }
-        Socks5AddressType::Ipv6 => {
-            if src.remaining() < 16 + 2 {
-                return Err(verif_err());
-            }
-            proof { assert(s0.skip(1).take(16) =~= s0.subrange(1, 17)); assert(s0.skip(1).skip(16).take(2) =~= s0.subrange(17, 19)); assert(s0.skip(1).skip(16).skip(2) =~= s0.skip(19)); lemma_be_val_bound(s0.subrange(17, 19)); lemma_pow256_vals(); lemma_be_val_bound(s0.subrange(1, 17)); lemma_be_roundtrip2(s0.subrange(1, 17)); }
-            let ip_v6 = Ipv6Addr::from(src.get_u128());
-            Ok(Address::Socket(SocketAddr::V6(SocketAddrV6::new(ip_v6, src.get_u16(), 0, 0))))
-        }
-    }
-}
-
-//@@ octo-squirrel/src/protocol/socks5/address.rs:73-81  fn length  sha=1ce35ec20bf8da66
-fn address__length(addr: &Address) -> (r: usize)
-    ensures
-        //#C14 C02
-        repr(*addr) ==> r == enc5(absaddr(*addr)).len(),
-{
-    proof { lemma_be_bytes_len(0, 2); match absaddr(*addr) { AddrV::Dom(n, p) => lemma_be_bytes_len(p as nat, 2), AddrV::V4(o, p) => lemma_be_bytes_len(p as nat, 2), AddrV::V6(o, p) => lemma_be_bytes_len(p as nat, 2) } }
-    match addr {
-        Address::Domain(host, _) => 1 + 1 + host.len() + 2,
-        Address::Socket(socket_addr) => match socket_addr {
-            SocketAddr::V4(_) => 1 + 4 + 2,
-            SocketAddr::V6(_) => 1 + 8 * 2 + 2,
-        },
-    }
-}
-
-//@@ octo-squirrel/src/protocol/socks5/address.rs:83-89  fn try_decode_at  sha=5ccf7be5a6d37f47
-fn address__try_decode_at(src: &BytesMut, at: usize) -> (r: Result<usize>)
-    requires
-        //#C07
-        at + 1 < src@.len(),
-    ensures
-        //#C04 C13 C14
-        match need5(src@, at as int) { Some(n) => r == Ok::<usize, anyhow::Error>(n as usize), None => r is Err },
-{
-    match Socks5AddressType::try_from(src[at])? {
-        Socks5AddressType::Ipv4 => Ok(1 + 4 + 2),
-        Socks5AddressType::Domain => Ok(1 + 1 + src[at + 1] as usize + 2),
-        Socks5AddressType::Ipv6 => Ok(1 + 8 * 2 + 2),
-    }
-}
-
-//@@ octo-squirrel/src/protocol/socks5/message.rs:15-17  struct Socks5InitialRequest  sha=1f38e54f5ce6f2db
-struct Socks5InitialRequest {
-    auth_methods: Vec<Socks5AuthMethod>,
-}
-
-//@@ octo-squirrel/src/protocol/socks5/message.rs:19-23  impl Socks5InitialRequest  sha=66b70fecd4f00ef9
-impl Socks5InitialRequest {
-    fn new(auth_methods: Vec<Socks5AuthMethod>) -> Self {
-        Socks5InitialRequest { auth_methods }
-    }
-}
-
-//@@ octo-squirrel/src/protocol/socks5/message.rs:24-32  impl Socks5Message for Socks5InitialRequest  sha=058dad5f7f457d1d
-impl Socks5InitialRequest {
-    fn encode(&mut self, dst: &mut BytesMut) {
-        dst.put_u8(VERSION);
-        dst.put_u8(self.auth_methods.len() as u8);
-        for auth_method in self.auth_methods.iter() {
-            dst.put_u8(*auth_method as u8);
-        }
-    }
-}
-
-//@@ octo-squirrel/src/protocol/socks5/message.rs:34-36  struct Socks5InitialResponse  sha=a0c0c6134306fe8c
-struct Socks5InitialResponse {
-    auth_method: Socks5AuthMethod,
-}
-
-//@@ octo-squirrel/src/protocol/socks5/message.rs:38-42  impl Socks5InitialResponse  sha=7a6280ab6a32c0a3
-impl Socks5InitialResponse {
-    fn new(auth_method: Socks5AuthMethod) -> Self {
-        Self { auth_method }
-    }
-}
-
-//@@ octo-squirrel/src/protocol/socks5/message.rs:44-49  impl Socks5Message for Socks5InitialResponse  sha=8dd6279b740c0a99
-impl Socks5InitialResponse {
-    fn encode(&mut self, dst: &mut BytesMut) {
-        dst.put_u8(VERSION);
-        dst.put_u8(self.auth_method as u8);
-    }
-}
-
-//@@ octo-squirrel/src/protocol/socks5/message.rs:51-55  struct Socks5CommandRequest  sha=130272c42a34f604
-#[derive(PartialEq, Clone)]
-struct Socks5CommandRequest {
-    command_type: Socks5CommandType,
-    dst_addr: Address,
-}
-
-//@@ octo-squirrel/src/protocol/socks5/message.rs:57-61  impl Socks5CommandRequest  sha=1349fbb1a81b1852
-impl Socks5CommandRequest {
-    fn new(command_type: Socks5CommandType, dst_addr: Address) -> (r: Self)
-        ensures r.command_type == command_type, r.dst_addr == dst_addr,
-    {
-        Self { command_type, dst_addr }
-    }
-}
-
-//@@ octo-squirrel/src/protocol/socks5/message.rs:63-70  impl Socks5Message for Socks5CommandRequest  sha=f6e234156e560fc6
-impl Socks5CommandRequest {
-    fn encode(&mut self, dst: &mut BytesMut)
-        requires repr(old(self).dst_addr),
-        ensures
-            //#C13 C14
-            final(dst)@ == old(dst)@ + seq![5u8, old(self).command_type as u8, 0u8] + enc5(absaddr(old(self).dst_addr)),
-            *final(self) == *old(self),
-    {
-        dst.put_u8(VERSION);
-        dst.put_u8(self.command_type as u8);
-        dst.put_u8(0);
-        address__encode(&self.dst_addr, dst);
-    }
-}
-
-//@@ octo-squirrel/src/protocol/socks5/message.rs:72-75  struct Socks5CommandResponse  sha=1824c387399e2856
-struct Socks5CommandResponse {
-    command_status: Socks5CommandStatus,
-    bnd_addr: Address,
-}
-
-//@@ octo-squirrel/src/protocol/socks5/message.rs:77-84  impl Socks5Message for Socks5CommandResponse  sha=ebab27fe779588e9
-impl Socks5CommandResponse {
-    fn encode(&mut self, dst: &mut BytesMut)
-        requires repr(old(self).bnd_addr),
-        ensures
-            //#C13
-            final(dst)@ == old(dst)@ + seq![5u8, old(self).command_status as u8, 0u8] + enc5(absaddr(old(self).bnd_addr)),
-            *final(self) == *old(self),
-    {
-        dst.put_u8(VERSION);
-        dst.put_u8(self.command_status as u8);
-        dst.put_u8(0x00);
-        address__encode(&self.bnd_addr, dst);
-    }
-}
-
-//@@ octo-squirrel/src/protocol/socks5/message.rs:86-90  impl Socks5CommandResponse  sha=27aec98fbb40980e
-impl Socks5CommandResponse {
-    fn new(command_status: Socks5CommandStatus, bnd_addr: Address) -> (r: Self)
-        ensures r.command_status == command_status, r.bnd_addr == bnd_addr,
-    {
-        Self { command_status, bnd_addr }
-    }
-}
-
-//@@ octo-squirrel/src/protocol/socks5/codec.rs:42-42  struct Socks5InitialRequestDecoder  sha=afb7b11cbafe5eb2
-struct Socks5InitialRequestDecoder;
-
-//@@ octo-squirrel/src/protocol/socks5/codec.rs:44-64  impl Decoder for Socks5InitialRequestDecoder  sha=728eea90ebc48856
-impl Socks5InitialRequestDecoder {
-
-    fn decode(&mut self, src: &mut BytesMut) -> (r: Result<Option<Socks5InitialRequest>>)
-        ensures
-            //#C13 C04 C07
-            match r {
-                Ok(None) => final(src)@ == old(src)@ && (old(src)@.len() < 2 || old(src)@.len() < 2 + old(src)@[1]),
-                Ok(Some(req)) => old(src)@[0] == 5 && final(src)@ == old(src)@.skip(2 + old(src)@[1]),
-                Err(_) => old(src)@.len() >= 2,
-            },
-    {
-        if src.remaining() < 2 || src.remaining() < 2 + src[1] as usize {
-            return Ok(None);
-        }
-        let version = src.get_u8();
-        if VERSION != version {
-            return Err(verif_err());
-        }
-        let count = src.get_u8() as usize;
-        proof { assert(src@ =~= old(src)@.skip(2)); }
-        let mut auth_methods = Vec::with_capacity(count);
-        for _ in iter: 0..count
-            invariant 0 <= iter.index@ <= count, src@ == old(src)@.skip(2 + iter.index@), old(src)@.len() >= 2 + count,
-        {
-            proof { assert(src@.skip(1) =~= old(src)@.skip(2 + iter.index@ + 1)); }
-            auth_methods.push(Socks5AuthMethod::new(src.get_u8())?);
-        }
-        proof { assert(src@ == old(src)@.skip(2 + count)); assert(count == old(src)@[1]); }
-        Ok(Some(Socks5InitialRequest::new(auth_methods)))
-    }
-}
-
-//@@ octo-squirrel/src/protocol/socks5/codec.rs:66-66  struct Socks5CommandRequestDecoder  sha=d53c7fcfd58b0c29
-struct Socks5CommandRequestDecoder;
-
-//@@ octo-squirrel/src/protocol/socks5/codec.rs:68-86  impl Decoder for Socks5CommandRequestDecoder  sha=0cf4f3ed562e5442
-impl Socks5CommandRequestDecoder {
-
-    fn decode(&mut self, src: &mut BytesMut) -> (r: Result<Option<Socks5CommandRequest>>)
-        ensures
-            //#C13 C04 C07
-            match r {
-                Ok(None) => final(src)@ == old(src)@ && (old(src)@.len() < 5 || (need5(old(src)@, 3) matches Some(n) && old(src)@.len() < 3 + n)),
-                Ok(Some(req)) => old(src)@[0] == 5 && req.command_type as u8 == old(src)@[1] && (parse5(old(src)@.skip(3)) matches Some((v, n)) && absaddr(req.dst_addr) == v
-                    && canonical(req.dst_addr) && repr(req.dst_addr) && final(src)@ == old(src)@.skip(3 + n as int)),
-                Err(_) => old(src)@.len() >= 5 && (need5(old(src)@, 3) is None || old(src)@[0] != 5 || old(src)@[1] < 1 || old(src)@[1] > 3 || parse5(old(src)@.skip(3)) is None),
-            },
-    {
-        if src.remaining() < 5 || src.remaining() < 3 + address__try_decode_at(src, 3)? {
-            return Ok(None);
-        }
-        let version = src.get_u8();
-        if VERSION != version {
-            return Err(verif_err());
-        }
-        let command_type = Socks5CommandType::new(src.get_u8())?;
-        src.advance(1); // Reserved
-        proof { assert(src@ =~= old(src)@.skip(3)); if parse5(src@) is Some { let n = parse5(src@).unwrap().1 as int; assert(src@.skip(n) =~= old(src)@.skip(3 + n as int)); } }
-        let addr = address__decode(src)?;
-        Ok(Some(Socks5CommandRequest::new(command_type, addr)))
-    }
-}
-
-//@@ octo-squirrel/src/protocol/socks5/codec.rs:88-88  struct Socks5InitialResponseDecoder  sha=c052d73bb6a96e4f
-struct Socks5InitialResponseDecoder;
-
-//@@ octo-squirrel/src/protocol/socks5/codec.rs:90-105  impl Decoder for Socks5InitialResponseDecoder  sha=11560866b116d94f
-impl Socks5InitialResponseDecoder {
-
-    fn decode(&mut self, src: &mut BytesMut) -> (r: Result<Option<Socks5InitialResponse>, anyhow::Error>)
-        ensures
-            //#C13 C04 C07
-            match r {
-                Ok(None) => final(src)@ == old(src)@ && old(src)@.len() < 2,
-                Ok(Some(rsp)) => old(src)@[0] == 5 && final(src)@ == old(src)@.skip(2),
-                Err(_) => old(src)@.len() >= 2,
-            },
-    {
-        if src.remaining() < 2 {
-            return Ok(None);
-        }
-        let version = src.get_u8();
-        if VERSION != version {
-            return Err(verif_err());
-        }
-        proof { assert(old(src)@.skip(1).skip(1) =~= old(src)@.skip(2)); }
-        Ok(Some(Socks5InitialResponse::new(Socks5AuthMethod::new(src.get_u8())?)))
-    }
-}
-
-//@@ octo-squirrel/src/protocol/socks5/codec.rs:107-107  struct Socks5CommandResponseDecoder  sha=70bbae6b1f6a9f5e
-struct Socks5CommandResponseDecoder;
-
-//@@ octo-squirrel/src/protocol/socks5/codec.rs:109-127  impl Decoder for Socks5CommandResponseDecoder  sha=856e5fee1ca728c7
-impl Socks5CommandResponseDecoder {
-
-    fn decode(&mut self, src: &mut BytesMut) -> (r: Result<Option<Socks5CommandResponse>>)
-        ensures
-            //#C13 C04 C07
-            match r {
-                Ok(None) => final(src)@ == old(src)@ && (old(src)@.len() < 5 || (need5(old(src)@, 3) matches Some(n) && old(src)@.len() < 3 + n)),
-                Ok(Some(rsp)) => old(src)@[0] == 5 && (parse5(old(src)@.skip(3)) matches Some((v, n)) && absaddr(rsp.bnd_addr) == v && final(src)@ == old(src)@.skip(3 + n as int)),
-                Err(_) => old(src)@.len() >= 5,
-            },
-    {
-        if src.remaining() < 5 || src.remaining() < 3 + address__try_decode_at(src, 3)? {
-            return Ok(None);
-        }
-        let version = src.get_u8();
-        if VERSION != version {
-            return Err(verif_err());
-        }
-        let command_status = Socks5CommandStatus::try_from(src.get_u8())?;
-        src.advance(1); // Reserved
-        proof { assert(src@ =~= old(src)@.skip(3)); if parse5(src@) is Some { let n = parse5(src@).unwrap().1 as int; assert(src@.skip(n) =~= old(src)@.skip(3 + n as int)); } }
-        let addr = address__decode(src)?;
-        Ok(Some(Socks5CommandResponse::new(command_status, addr)))
-    }
-}
-
-//@@ octo-squirrel/src/protocol/socks5/codec.rs:129-129  struct Socks5UdpCodec  sha=0d7428243bf68631
-struct Socks5UdpCodec;
-
-//@@ octo-squirrel/src/protocol/socks5/codec.rs:131-150  impl Decoder for Socks5UdpCodec  sha=d32cc3de6bd24cdb
-impl Socks5UdpCodec {
-
-    fn decode(&mut self, src: &mut BytesMut) -> (r: Result<Option<DatagramPacket>, anyhow::Error>)
-        ensures
-            //#C02 C13 C07 C14
-            match r {
-                Ok(None) => old(src)@.len() == 0,
-                Ok(Some(pkt)) => old(src)@.len() >= 5 && old(src)@[2] == 0 && (parse5(old(src)@.skip(3)) matches Some((v, n)) && absaddr(pkt.1) == v && canonical(pkt.1) && repr(pkt.1)
-                    && pkt.0@ == old(src)@.skip(3 + n as int)),
-                Err(_) => old(src)@.len() > 0 && (old(src)@.len() < 5 || old(src)@[2] != 0 || parse5(old(src)@.skip(3)) is None),
-            },
-    {
-        if src.is_empty() {
-            return Ok(None);
-        }
-        if src.remaining() < 5 {
-            return Err(verif_err());
-        }
-        if src[2] != 0 {
-            return Err(verif_err());
-        }
-        src.advance(3);
-        proof { if parse5(src@) is Some { let n = parse5(src@).unwrap().1 as int; assert(src@.skip(n).skip(0) =~= old(src)@.skip(3 + n as int)); } }
-        let recipient = address__decode(src)?;
-        Ok(Some((src.split_off(0), recipient)))
-    }
-}
-
-//@@ octo-squirrel/src/protocol/socks5/codec.rs:152-161  impl Encoder for Socks5UdpCodec  sha=cfd7b2faecfc9eac
-impl Socks5UdpCodec {
-
-    fn encode(&mut self, item: DatagramPacket, dst: &mut BytesMut) -> (r: Result<(), anyhow::Error>)
-        requires repr(item.1),
-        ensures
-            //#C02 C14
-            r is Ok && final(dst)@ == old(dst)@ + seq![0u8, 0u8, 0u8] + enc5(absaddr(item.1)) + item.0@,
-    {
-        dst.extend_from_slice(&[0, 0, 0]); // Fragment
-        address__encode(&item.1, dst);
-        dst.extend_from_slice(&item.0);
-        Ok(())
-    }
-}
-
+//@include ../parts/addr.rs
 } // verus!
 fn main() {}
